@@ -136,6 +136,7 @@ type FSExplorer struct {
 	Invocations int
 	MaxDepthSeen int
 	Closed      bool
+	Cut         bool // the budget ran out inside a level
 	mu          sync.Mutex
 }
 
@@ -297,6 +298,12 @@ func (e *FSExplorer) Explore(initial []*FSState, deadline time.Time) []Violation
 			}()
 		}
 		for i := range jobs {
+			if time.Now().After(deadline) {
+				// out of budget inside a level: the transitions not started are not explored (reported as not closed)
+				e.Closed = false
+				e.Cut = true
+				break
+			}
 			ch <- i
 		}
 		close(ch)
